@@ -174,34 +174,7 @@ def input_provenance(repo, tier):
     def P(oid, ok, why, rel):
         obls.append(ground_obligation(oid, bool(ok), why, rel, definite=False))
 
-    # MSG routing: `if _looks_like_html(B): body_plain = _html_to_text(B)` with B the message body itself
-    m = loader.module(MSG, repo)
-    fn = m.functions.get("read_msg_format_mail")
-    oid = "C17/msg_email_extractor.py::read_msg_format_mail/call-site#html-body-is-routed-through-_html_to_text"
-    if fn is None:
-        P(oid, False, "read_msg_format_mail missing", MSG)
-    else:
-        convs = _calls(fn, "_html_to_text")
-        ok, why = False, f"{len(convs)} _html_to_text call(s)"
-        if len(convs) == 1 and len(convs[0].args) == 1:
-            pv = Prov(fn, attr_sources=("msg.body",))
-            pv.run(convs[0].args[0])
-            par = {c: p for p in ast.walk(fn) for c in ast.iter_child_nodes(p)}
-            asg = par.get(convs[0])
-            iff = par.get(asg) if isinstance(asg, ast.Assign) else None
-            tgt = asg.targets[0].id if isinstance(asg, ast.Assign) and len(asg.targets) == 1 and isinstance(asg.targets[0], ast.Name) else None
-            test_ok = isinstance(iff, ast.If) and asg in iff.body and isinstance(iff.test, ast.Call) and dotted(iff.test.func) == "_looks_like_html" \
-                and len(iff.test.args) == 1 and ast.unparse(iff.test.args[0]) == ast.unparse(convs[0].args[0])
-            # the converted text is what the result carries as body_plain, and nothing re-assigns it afterwards
-            kws = [k for c in ast.walk(fn) if isinstance(c, ast.Call) and dotted(c.func) == "EmailContent" for k in c.keywords if k.arg == "body_plain"]
-            stores = [n for n in ast.walk(fn) if isinstance(n, ast.Name) and n.id == tgt and isinstance(n.ctx, ast.Store)] if tgt else []
-            in_if = [n for n in stores if isinstance(iff, ast.If) and any(n is x for x in ast.walk(iff))]
-            flow_ok = tgt is not None and len(kws) == 1 and isinstance(kws[0].value, ast.Name) and kws[0].value.id == tgt and len(stores) == len(in_if) == 2
-            ok = not pv.problems and any(a == "attribute msg.body" for a in pv.atoms) and test_ok and flow_ok \
-                and m.functions.get("_looks_like_html") is not None
-            why = f"body from {sorted(set(pv.atoms))}; problems {pv.problems}; guarded by _looks_like_html(same value): {test_ok}; reaches body_plain unchanged: {flow_ok}"
-        P(oid, ok, why, MSG)
-        fns.append(dict(m.fn_info("read_msg_format_mail"), obligations=1))
+    # (round 3) the MSG routing statement is under a symbolic contract: contracts/C17_glue.py::read_msg_format_mail
     return {"obligations": obls, "functions": fns}
 
 
